@@ -74,6 +74,8 @@ def run(tier):
     from ..rules import expand as _expand
     chk.clause('C09.bcopy', 'the in-place shift of the caller workspace copies every byte of the block (no residue of earlier contents)')
     _expand.bcopy_rule(chk, 'C09.bcopy', _pg, 'tested')
+    from ..rules import lints as _lints
+    _lints.scratch_initialised_rule(chk, 'C09.scratch', _pg, 'tested')
     from ..rules import misc as _misc
     chk.clause('C09.slot', 'a slot reserved for the fill position of an empty ILU column is written before the pivot search reads it')
     for _p in 'sdcz':
